@@ -82,7 +82,11 @@ corrected with `gcf_k` turned out to violate C04 and C11 once the generator cove
   (`c08_affine_invariant_fit`) is about identical input; the finding is classified only when the
   recorded optimiser inputs agree to 1e-12 *and* the start index is identical – any other
   non-invariance of the same estimator is still a VIOLATION.  The recorded input runs first in
-  every run.
+  every run.  A second instance of the same mechanism, in another estimator, was found by the thorough
+  tier of the final tree (seed 141) and is recorded under its own signature
+  `optimiser-amplifies-rounding:fit_constant_polynomial`: hertz_pyr3s curve of 60 + 29 samples, noise 5 %,
+  tilt −5 %: index 30 for `f`, 33 for `f + 2.755e-12` (the normalised forces differ by 2.2e-16).  It was
+  reproduced on the real code and runs first in every run as well.
 * **C13 `at-declared-bound:…`** – three shipped models fail on a *closed* declared limit of one of their
   parameters: `power_layer_clifford_2009` with `E_S = 0` raises ZeroDivisionError (`(E_L/E_S)**m`),
   `sneddon_spher_approx` with `R = 0` returns NaN for every point in contact, `sneddon_spher` with `R = 0` raises
